@@ -158,6 +158,40 @@ func minLenFromFacts(g *core.Graph, info *types.Info, n *core.GNode, base ast.Ex
 			best = lb + add
 		}
 	}
+	// switch len(base) { case 0: ...; case 1: ... }: on the way past the cases the excluded lengths are known, inside
+	// `case c:` the length is c
+	{
+		excluded := map[int64]bool{}
+		for _, fc := range g.FactsAt(n) {
+			if fc.Tag == nil {
+				continue
+			}
+			tc, ok := core.Unparen(fc.Tag).(*ast.CallExpr)
+			if !ok || core.BuiltinName(info, tc) != "len" || len(tc.Args) != 1 || core.ExprStr(tc.Args[0]) != want || !g.FactFresh(fc, n) {
+				continue
+			}
+			c, isC := core.ConstInt(info, fc.Expr)
+			if !isC {
+				continue
+			}
+			if fc.Truth {
+				if c > best {
+					best = c
+				}
+			} else {
+				excluded[c] = true
+			}
+		}
+		if len(excluded) > 0 {
+			m := int64(0)
+			for excluded[m] {
+				m++
+			}
+			if m > best {
+				best = m
+			}
+		}
+	}
 	// the length check made by a helper:  if err := checkFraming(buf); err != nil { return }  - on the err == nil side the
 	// buffer is at least as long as the helper guarantees on every one of its success returns
 	if g.Prog != nil && minLenDepth < 2 {
@@ -206,6 +240,40 @@ func minLenFromFacts(g *core.Graph, info *types.Info, n *core.GNode, base ast.Ex
 					}
 					if re {
 						continue
+					}
+				}
+				// the buffer is a result of the helper: it is at least as long as what every success return of the helper
+				// returns there (data, err := stripPrefix(record); if err != nil { return }; data[len(data)-9:])
+				if bo := core.ObjOf(info, base); bo != nil {
+					for li, l := range as.Lhs {
+						if core.ObjOf(info, l) != bo || li == len(as.Lhs)-1 {
+							continue
+						}
+						hg := g.Prog.Graph(h)
+						hmin, nret := int64(-1), 0
+						minLenDepth++
+						for _, hr := range hg.Returns() {
+							if definitelyErrorReturn(hg, h, hr) {
+								continue
+							}
+							res := returnResults(hr)
+							if li >= len(res) {
+								hmin = 0
+								continue
+							}
+							nret++
+							m := int64(0)
+							if _, isId := core.Unparen(res[li]).(*ast.Ident); isId {
+								m = minLenFromFacts(hg, h.Pkg.TypesInfo, hr, res[li])
+							}
+							if hmin < 0 || m < hmin {
+								hmin = m
+							}
+						}
+						minLenDepth--
+						if nret > 0 && hmin > best {
+							best = hmin
+						}
 					}
 				}
 				for ai, a := range c.Args {
